@@ -108,6 +108,31 @@ Example C07_rerun_k7d_regression :
   files (snd (snd rerun)) (mf_path r) = Some (new_manifest r []).
 Proof. vm_compute. repeat split; reflexivity. Qed.
 
+(* defect K7e: the deploy empties the only root (its manifest is rewritten with no entries) while an
+   earlier snapshot still lists a file of a nested root that is switched off now.  After a crash
+   between that manifest write and the snapshot record the re-run used to find no manifest ENTRY,
+   fall back to the earlier snapshot and delete the nested file, which the uninterrupted run leaves
+   alone; with the repaired rule (a usable manifest that lists nothing is the record) the re-run
+   is a no-op on the crash state and the nested file stays *)
+Example C07_rerun_k7e_regression :
+  let r := Build_root (s "codex") [s "h"; s "c"] false in
+  let pa := [s "h"; s "c"; s "AGENTS.md"] in let ps := [s "h"; s "c"; s "skills"; s "x.md"] in
+  let man := FMan (Parsed 1 (s "codex") [(s "AGENTS.md", 1)]) in
+  let f : fs := upd (upd (upd (fun _ => None) (mf_path r) (Some man)) pa (Some (FBytes 1))) ps (Some (FBytes 2)) in
+  let S1 := {| sn_kind := KDeploy; sn_managed := [(s "codex", pa, 1); (s "codex", ps, 2)]; sn_changes := [];
+               sn_to := None; sn_state := true |} in
+  let w := Build_world f [S1] in
+  let D : list dfile := [] in
+  let pl := plan f D (managed_for_plan w [r] None) in
+  let steps := steps_of_apply f [r] D pl in
+  let wc := Build_world (cfiles (run_prefix (length steps - 2) steps (init_state f))) [S1] in
+  let rerun := deploy_cmd SJsonYes true false None wc [r] D in
+  map c_op pl = [PDelete] /\ files wc pa = None /\ files wc (mf_path r) = Some (new_manifest r []) /\
+  fst rerun = [] /\ fst (snd rerun) = ONoChanges /\
+  files (snd (snd rerun)) ps = Some (FBytes 2) /\
+  files (apply_plan KDeploy w [r] D pl) ps = Some (FBytes 2).
+Proof. vm_compute. repeat split; reflexivity. Qed.
+
 Example C07_nonvacuous :
   let r := Build_root (s "codex") [s "h"; s "p"] true in
   let pa := [s "h"; s "p"; s "a.md"] in let pb := [s "h"; s "p"; s "b.md"] in let pc := [s "h"; s "p"; s "c.md"] in
